@@ -80,6 +80,43 @@ claim("C08",
   "Exact consumption of valid encodings is taken from the shape rules of C01–C03; io.Reader contract trusted.",
   "DESIGN.md §3 C08")
 
+
+claim("C01",
+  "wire-shape extraction over SSA and comparison with the documentation + guarded reachability + ownership of the stream",
+  "Decides the layout and refusal clauses from the source: shape(Header.Write) = shape(Header.Read) = struct header_t of the documentation (order, widths, 28 bytes), magic big-endian and every primitive little-endian with the width of its Go type (derived from the primitive bodies); nil from Header.Read only across valid magic/version/type; payload allocation and read only behind a validated header and Size <= MaxPayloadSize; exactly two exact reads on the stream, payload always assigned; ReadN/WriteN retry loops complete and accept data arriving with EOF; one buffered write per message.",
+  "Value-level round trip for all field values, lengths and fragmentations is not decided; encoding/binary trusted.",
+  "DESIGN.md §3 C01")
+
+claim("C02",
+  "dispatch-table agreement (AST constants + SSA return types) + wire-shape comparison writer/reader + consumed-equals-returned on TypeReaders with value identity",
+  "Decides that every value type's constant signature has a row in NewValue's table whose constructor returns that type, that each Write emits signature + exactly the shape its constructor reads, that every signature-driven reader re-emits each value it read with the dual primitive, in order, into a buffer created by that call, that opaque values store what the reader returned, and that size limits are inclusive on every side.",
+  "Equality of decoded values for all inputs and depths is not decided; bytes.Buffer trusted.",
+  "DESIGN.md §3 C02")
+
+claim("C03",
+  "table agreement across four independently maintained codec descriptions + wire-shape comparison of every reader/writer pair",
+  "Decides that type/basic primitives, signature constructors (letter, IDL, reader width, Go type, template primitives), the reflection encoder/decoder kind switches, the Encode/Decode type switches and the documentation agree row by row; that slice/map are a 32-bit count plus that many elements (key before value) on every side with fresh storage per decoded element; and that all checked-in readX/writeX pairs have identical field-by-field wire shapes.",
+  "The generator templates themselves are not analysed (only their checked-in output); value equality is not decided.",
+  "DESIGN.md §3 C03")
+
+claim("C09",
+  "table agreement between grammar atoms, switch cases, constructor rows and printer tokens (AST constants) + guarded reachability on Parse",
+  "Decides that every grammar letter has a case whose constructor prints that letter, that each composite printer emits exactly the atoms of its grammar production (and the struct-name patterns accept the same identifiers inside and outside the template brackets), that Parse succeeds only at end of input with one type and keeps no state, and that node builders cannot panic on error nodes (unchecked assertions only on terminals, parallel slices length-checked).",
+  "Grammar-wide identity, rejection of every other string and goparsec internals are not decided.",
+  "DESIGN.md §3 C09")
+
+claim("C18",
+  "table agreement between IDL printers and IDL grammar (AST constants) + component-registration and assertion checks over SSA",
+  "Decides that every IDL type name printed is parsed back by the same constructor, that composite and line-level tokens printed are atoms of the parser, that the uid is read back as printed into a uint32, that composite types register all their components, and that IDL node builders assert unchecked only to terminals.",
+  "Identity on all meta-objects and parser totality on arbitrary text are not decided. Known finding D14 (void prints as 'nothing') listed in known_findings.txt.",
+  "DESIGN.md §3 C18")
+
+claim("C20",
+  "def-use / must-pass rules on reflect values + guarded reachability on kind tests (SSA)",
+  "Decides that fresh reflect values are populated by convertFrom before being stored, per loop iteration, key and value from the same source entry; that every scalar setter is behind a same-family kind test and stores the source's own accessor value (AsInt64 exact); that composite converters touch the destination only after testing the source kind; that slices are converted index by index over the whole source and struct fields paired by name; and that element failures propagate.",
+  "Value equality for all inputs and widening/narrowing semantics are not decided; reflect trusted.",
+  "DESIGN.md §3 C20")
+
 _pending = "check not implemented yet in this revision of /verif (design in DESIGN.md §3); not claimed until its rules exist and are validated"
 for pid in ["C01","C02","C03","C04","C06","C07","C08","C09","C10","C11","C12","C13","C14","C15","C16","C17","C18","C20"]:
     if pid not in CLAIMED:
